@@ -308,6 +308,22 @@ def read_back(ctx, alg, iso, mv, expected):
                 want = -want
             if not coef_equal(got, want):
                 P.append(['getattr', sp, show(got, 50), show(want, 50)])
+    # names that are not blades of this algebra (generators of a neighbouring start index): performed for the history they create
+    # in whatever kingdon shares between Algebra instances; a non-blade reads as 0 or raises, neither is judged
+    foreign_names = []
+    for s_ in (alg.start_index + 1, max(alg.start_index - 1, 0)):
+        labels = gen.default_names(d, s_)
+        for g_ in (2, 3):
+            for combo in itertools.combinations(labels, g_):
+                foreign_names.append('e' + ''.join(reversed(combo)))      # a permuted spelling that is legal in the neighbouring algebra
+    for foreign in foreign_names[:24]:
+        if foreign in alg.canon2bin:
+            continue
+        try:
+            getattr(mv, foreign)
+            ctx.count('foreign_name_reads')
+        except Exception:
+            ctx.count('foreign_name_reads')
     # grade()
     for _ in range(2):
         gs = tuple(sorted(rng.sample(range(d + 1), rng.randint(0, d + 1))))
